@@ -288,7 +288,13 @@ func (vc *VC) typeFacts(h *Heap, v Val) string {
 		if v.Typ == nil {
 			return vc.knownRefT(h, v.T, types.Typ[types.Int])
 		}
-		return vc.knownRefT(h, v.T, v.Typ)
+		// address space: an object lies entirely above 0 or entirely below 0
+		// (struct-typed slice elements), so interior references are never nil
+		size := int64(1)
+		if p, ok := v.Typ.Underlying().(*types.Pointer); ok {
+			size = structSize(p.Elem())
+		}
+		return sAnd(vc.knownRefT(h, v.T, v.Typ), sOr(sLe("0", v.T), sLe(sAdd(v.T, sNum(size)), "0")))
 	case KPtr:
 		if v.T != "" {
 			return vc.knownRefT(h, v.T, types.Typ[types.Int])
